@@ -28,7 +28,9 @@ from vlib.core import PropertyViolation, Recorder, hyp_search, violation_record,
 
 PROPERTY = "C09"
 RULE = (
-    "(the generator receives through an unpacking assignment and, per instance, may absorb GeneratorExit) "
+    "(the generator receives through an unpacking assignment and, per instance, may absorb GeneratorExit or enter "
+    "an overlay itself; overlays are BaseOverlay handlers on tooled copies or, in half of the cases, probes on the "
+    "raw functions) "
     "history = list (<=20 quick / <=45 thorough ops) over {enter overlay k (5 specs incl. ga>fc>u, fc>u, "
     "fb>fc>u, ga>u, ga(w)>fc>u), leave innermost overlay, create generator ga(plan), next i, close i, drop i, "
     "throw into a generator suspended at its first yield, driver call of a plan over fa/fb/fc} x driver placement (top level / inside instrumented fd under an "
